@@ -171,6 +171,14 @@ def update_pre(S, self, date, data, inow):
         pre.append(("nan-free:" + f, Not(isnan(h.get(self, f)))))
     pre.append(("inow-is-idx", Or(isnone(inow), And(Not(isnone(inow)), eq(optval(inow), ite(eq(date, 0), 0, S.idx(self, date)))))))
     pre.append(("idx-nonneg", S.idx(self, date) >= 0))
+    # the paper copy of a sub-strategy is a separate tree whose root it is (established by setup)
+    pp = h.get(self, "_paper")
+    pt = h.get(self, "_paper_trade")
+    sch = h.schema
+    pre.append(("T-paper", Implies(pt, And(
+        pp.term != dsl.NONE, h.get(pp, "root").term == pp.term, h.get(pp, "parent").term == pp.term, treeof_f(pp.term) == pp.term,
+        pp.term != h.get(self, "root").term, pp.term != self.term, slot_f(self.term, pp.term) == -1, Not(h.get(pp, "_paper_trade")), Not(h.get(pp, "_issec")),
+        cls_in(sch, pp.term, STRAT_CLASSES), slot_f(pp.term, pp.term) == -1))))
     # a non-root strategy is only ever updated by its parent's update, on the parent's date
     parent = h.get(self, "parent")
     pre.append(("child-updated-on-parent-date", Implies(parent.term != self.term, And(h.get(parent, "now").eq(date), h.get(h.get(self, "root"), "now").eq(date)))))
@@ -304,6 +312,83 @@ def _loop2_on_iter(ctx, c):
 LOOP2 = LoopSpec(_loop2_inv, havoc_heap=_loop2_havoc, on_iter=_loop2_on_iter, name="recompute child weights")
 
 
+# ---- third loop: publish the strategy children's index into the parent's universe
+scpos_f = z3.Function("scpos", dsl.Ref, dsl.Ref, z3.IntSort())
+
+
+def sc_name(heap, s, j):
+    return heap.list_at(s, "_strat_children", j)
+
+
+def sc_child(heap, s, j):
+    return heap.dict_at(s, "children", sc_name(heap, s, j), "Node")
+
+
+def sc_facts(heap, s, j):
+    """T instance for the j-th registered strategy child: it is a child, a strategy, and names are unique"""
+    from .core_ops import named_child_facts
+
+    nm = sc_name(heap, s, j)
+    c = sc_child(heap, s, j)
+    return [
+        heap.dict_has(s, "children", nm), named_child_facts(heap, s, nm), Not(heap.get(c, "_issec")), cls_in(heap.schema, c.term, STRAT_CLASSES),
+        scpos_f(s.term, c.term) == Num.lift(j).r, Not(isnan(heap.get(c, "_price"))),
+    ]
+
+
+def sc_schema(heap, s):
+    n = heap.list_len(s, "_strat_children")
+    return ForallInt(0, n, lambda j: And(*sc_facts(heap, s, j)), name="js")
+
+
+def _loop3_inv(ctx):
+    st = ctx.cur
+    self = ctx.entry.locals["self"]
+    E = ctx.entry.heap
+    date = ctx.entry.locals["date"]
+    h = st.heap
+    row = Num(cs_idx(date), False, True)
+    out = []
+    if st.ghost.get("flattened"):
+        out.append(("still-flagged-bankrupt", h.get(self, "bankrupt")))
+        return out
+    rt = h.get(self, "root")
+    out.append(("root-not-stale", Not(h.get(rt, "stale"))))
+    out.append(("child-index-published", ForallInt(0, ctx.i, lambda j: value_same(h.hist_get(sc_child(E, self, j), "_ucol", row), h.get(sc_child(E, self, j), "_price")), name="ju")))
+    return out
+
+
+def cs_idx(date):
+    from pyvc.heap import idx_f
+
+    return idx_f(Num.lift(date).r)
+
+
+def _loop3_havoc(ctx):
+    self = ctx.entry.locals["self"]
+    if ctx.entry.ghost.get("flattened"):
+        return list(update_modkeys()) + ["stale"]
+    E = ctx.entry.heap
+    names = E.ensure("_strat_children").select(self.term)
+    kids = E.ensure("children").select(self.term)
+
+    def condfn(i):
+        i = Num.lift(i)
+        return lambda x: And(scpos_f(self.term, x) >= 0, scpos_f(self.term, x) < i.r, z3.Select(kids, z3.Select(names, scpos_f(self.term, x))) == x)
+
+    return [("_ucol", condfn), ("_ucol#nan", condfn)]
+
+
+def _loop3_on_iter(ctx, c):
+    st = ctx.cur
+    self = st.locals["self"]
+    for f in sc_facts(ctx.entry.heap, self, ctx.i):
+        st.assume(_zb(f))
+
+
+LOOP3 = LoopSpec(_loop3_inv, havoc_heap=_loop3_havoc, on_iter=_loop3_on_iter, name="publish strategy children's index")
+
+
 # ------------------------------------------------------------------------------------ flatten (placeholder semantics for update's own proof)
 def apply_flatten(ex, st, recv, args, exact=False):
     heap = st.heap
@@ -344,7 +429,18 @@ def _restrict_flat(S, self, args):
     return [Not(S.get(self, "_has_strat_children")), Not(S.get(self, "_paper_trade"))]
 
 
-VARIANTS = {"flat": _restrict_flat}
+def _restrict_nopaper(S, self, args):
+    return [Not(S.get(self, "_paper_trade"))]
+
+
+# case split of the entry states into four parallel verification tasks (their union is every state)
+VARIANTS = {
+    "flat": _restrict_flat,
+    "paper": lambda S, self, args: [Not(S.get(self, "_has_strat_children")), S.get(self, "_paper_trade")],
+    "nested": lambda S, self, args: [S.get(self, "_has_strat_children"), Not(S.get(self, "_paper_trade"))],
+    "nested-paper": lambda S, self, args: [S.get(self, "_has_strat_children"), S.get(self, "_paper_trade")],
+    "full": (lambda S, self, args: []),
+}
 
 
 def verify_update(ex, contract, timeout_ms=30000, restrict=None, variant=None):
@@ -365,7 +461,7 @@ def verify_update(ex, contract, timeout_ms=30000, restrict=None, variant=None):
             for f in restrict(S0, self, args):
                 st0.assume(_zb(f))
         E = st0.heap.copy()
-        st0.ghost["schemas"] = [children_schema(E, self)]
+        st0.ghost["schemas"] = [children_schema(E, self), sc_schema(E, self)]
         t0 = time.time()
         exits = ex.run_function(fi, st0.fork(), self, args)
         fr.symexec_s = time.time() - t0
@@ -478,6 +574,33 @@ def verify_update(ex, contract, timeout_ms=30000, restrict=None, variant=None):
                         ForallInt(0, n, lambda j, F=F, Vt=Vt, Nn=Nn: Implies(_act2(F, self, j), value_same(F.get(_children(E, self, j), "_weight"), weight_spec(F, self, _children(E, self, j), Vt, Nn))), name="jw"),
                         ("C01", "C17"),
                     )
+                # C09/C19: every strategy child's index is published in this node's universe at the current row
+                m = E.list_len(self, "_strat_children")
+                ob("universe:strategy-child-column-carries-child-index",
+                   ForallInt(0, m, lambda j, F=F: Implies(E.get(self, "_has_strat_children"), value_same(F.hist_get(sc_child(E, self, j), "_ucol", Num(cs_idx(date), False, True)), F.get(sc_child(E, self, j), "_price"))), name="ju"),
+                   ("C09", "C19"))
+                # C09: a paper-traded sub-strategy takes its index from its paper copy, which is stepped exactly update;run;update on a new date
+                paper = E.get(self, "_paper_trade")
+                pp = E.get(self, "_paper")
+                pcalls = [c for c in st.log if len(c) == 4 and dsl.is_z3(c[1].term) and (z3.eq(c[1].term, pp.term))]
+                names = [c[0].rsplit(".", 2)[-2] + "." + c[0].rsplit(".", 1)[1] for c in pcalls]
+                kinds = [c[0].rsplit(".", 1)[1] for c in pcalls]
+                ob("paper:index-is-paper-copy-index", Implies(paper, value_same(F.get(self, "_price"), F.get(pp, "_price"))), ("C09",))
+                ob("paper:row-price", Implies(paper, value_same(F.hist_get(self, "_prices", i_eff), F.get(self, "_price"))), ("C09", "C08"))
+                core = [k for k in kinds if k in ("update", "run")]
+                # the trace on the paper copy, ignoring a trailing refresh by the price getter
+                want_new = ["update", "run", "update"]
+                okn = core[:3] == want_new and all(k == "update" for k in core[3:])
+                # a plain StrategyBase paper copy has an empty run() (inlined, not logged)
+                okb = core[:2] == ["update", "update"] and all(k == "update" for k in core[2:])
+                oko = all(k == "update" for k in core)
+                plain = cls_f(pp.term) == E.schema.tag("StrategyBase")
+                ob("paper:stepped-update-run-update-on-new-date", Implies(And(paper, newpt0), Or(okn, And(okb, plain))), ("C09",))
+                ob("paper:not-stepped-otherwise", Implies(And(paper, Not(newpt0)), oko and "run" not in core), ("C09", "C08"))
+                for c in pcalls:
+                    if c[0].endswith(".update") and c in pcalls[:3]:
+                        ob("paper:stepped-on-the-same-date", Implies(paper, c[2][0].eq(date)), ("C09",))
+                ob("paper:never-stepped-for-a-root", Implies(Not(paper), len(core) == 0), ("C09",))
                 # C08 append-only: own buffers change at most at row inow
                 for hf in STRAT_HIST:
                     o = _skolem_hist_frame(F, E, self, hf, i_eff, "%s/append-only:%s" % (fname, hf), st.pc, ("C08",))
@@ -485,12 +608,14 @@ def verify_update(ex, contract, timeout_ms=30000, restrict=None, variant=None):
                 # frame: nothing outside self, the children's subtrees, root.stale, (paper) is written
                 x = z3.Const(dsl.fresh_name("xfr"), dsl.Ref)
                 outside = And(x != self.term, slot_f(self.term, x) == -1, treeof_f(x) == treeof_f(self.term))
+                jx = Num(scpos_f(self.term, x), False, True)
+                sc_inst = sc_schema(E, self).inst(jx)
                 for key in sorted(F.maps.keys()):
                     a = F.maps[key]
                     b = E.ensure(key)
                     if map_same(a, b) or key == "stale":
                         continue
-                    obligs.append(Oblig("%s/frame:%s" % (fname, key), st.pc, Implies(outside, a.select(x) == b.select(x)), "post", ("C08", "C11")))
+                    obligs.append(Oblig("%s/frame:%s" % (fname, key), list(st.pc) + [_zb(sc_inst)], Implies(outside, a.select(x) == b.select(x)), "post", ("C08", "C11")))
             else:
                 # bankruptcy exits
                 Vt = capE + C + V
